@@ -19,7 +19,7 @@ fn powi_f32_exact(x: f32, n: i32) -> f32 {
 macro_rules! high_bits_shape {
     ($name:ident, $l:expr) => {
         #[kani::proof]
-        #[kani::unwind(10)]
+        #[kani::unwind(34)]
         fn $name() {
             let a0: [u64; $l] = vc::any_canon::<$l>();
             let a = vc::mk_from(&a0);
@@ -43,7 +43,7 @@ macro_rules! high_bits_shape {
 macro_rules! to_float_shape {
     ($name:ident, $l:expr) => {
         #[kani::proof]
-        #[kani::unwind(10)]
+        #[kani::unwind(34)]
         #[kani::stub(f64::powi, powi_f64_exact)]
         #[kani::stub(f32::powi, powi_f32_exact)]
         fn $name() {
@@ -67,7 +67,7 @@ macro_rules! to_float_shape {
 macro_rules! to_f64_bits_shape {
     ($name:ident, $l:expr) => {
         #[kani::proof]
-        #[kani::unwind(20)]
+        #[kani::unwind(34)]
         #[kani::stub(f64::powi, powi_f64_exact)]
         fn $name() {
             let a0: [u64; $l] = vc::any_canon::<$l>();
